@@ -9,6 +9,7 @@ import BqVerif.Model.RuntimeWitness
 import BqVerif.Proofs.Wake
 import BqVerif.Proofs.SchedExact
 import BqVerif.Proofs.WakeNet
+import BqVerif.Proofs.WakeNet2
 /-!
 # C07 — every awaited runtime future resolves exactly once with its own result
 
@@ -291,27 +292,50 @@ example :
     ∧ (ops.foldl (Worker.applyOp tbl) { id := 0 }).boxes = [] := by
   refine ⟨okRunB_sound _ _ _ (by decide +kernel), by decide +kernel, by decide +kernel⟩
 
-/-- **Wake discipline on the flat network, first assumption discharged.**  For all schedules of
-    the flat network (any table, workers, clients, assignments, error and shutdown paths) in which
-    no result is deposited into a mailbox that is already complete (`Net.depositsOK`, the second
-    assumption of the worker-level theorems, stated transition by transition): every worker of
-    the reached state satisfies the wake invariant `WInv` - in particular the task its next loop
-    iteration picks passes `_get_desired_result` or gets KeyError for a dropped mailbox, and no
-    wake-up is lost.  The first assumption of the worker-level theorems (an arriving task has not
-    run and its address is unknown to the worker: not in `_tasks`, not delayed, not in the ready
-    queue) is *proved* here from token uniqueness (`GInv`) and from "an address whose token is
-    gone never comes back" (`PsiA`, `Proofs/DeadAddr.lean`).  Invariant `NInv`
-    (`Proofs/WakeNet.lean`). -/
-theorem C07_G_wake_discipline_partial (tbl : Table) (attached : Bool) (nw nc : Nat) (trs : List Tr)
-    (hwf : ∀ t ∈ trs, t.wf) (hdep : (Net.initFlat tbl attached nw nc).depositsOK trs)
+/-- **Wake discipline on the flat network, for ALL schedules** (handlers atomic).  For every run
+    of the flat network - any table, workers, clients, assignments, delivery orders, cancellations,
+    error and shutdown paths - and every worker `w` of the reached state:
+    * the task its next loop iteration picks passes `_get_desired_result` or gets KeyError because
+      the awaited mailbox was dropped (cancelled future): `assert box.ready`,
+      `assert box.fresh_results is not None` and the ValueError of `owned_mailboxes.remove` are
+      unreachable;
+    * no wake-up is lost: a task that is not cancelled and waits for an existing mailbox is in the
+      ready queue when the mailbox is complete, and is the mailbox's registered waiter otherwise;
+    * a RESULT in flight to the worker never finds its mailbox complete, and handling it never
+      kills the incoming thread (`self._tasks[box.dest_addr]` cannot raise).
+    Both environment assumptions of the worker-level theorems are *proved* on the network:
+    arriving addresses are unknown to the worker (token uniqueness `GInv`; an address whose token is
+    gone never comes back, `PsiA`), and no result is deposited into a complete mailbox (for every
+    mailbox, results deposited + outstanding tokens of its slots ≤ `expected_num_results`, and a
+    token's slot index is below it).  Invariant `NInv2` (`Proofs/WakeNet.lean`, `BoxCount.lean`,
+    `WakeNet2.lean`) over `deliver / workerStep / clientSend`. -/
+theorem C07_G_wake_discipline (tbl : Table) (attached : Bool) (nw nc : Nat) (trs : List Tr)
+    (hwf : ∀ t ∈ trs, t.wf)
     (w : Worker) (hw : w ∈ ((Net.initFlat tbl attached nw nc).exec trs).workers) :
     (∀ t0 cls, (Worker.pick w.pickFuel { w with blocked := false }).task = some t0 →
         desiredResult (Worker.pick w.pickFuel { w with blocked := false }).w t0 = .error cls → cls = eKey)
     ∧ (∀ t ∈ w.tasks, t.uncancelled w → ∀ m b, t.desired = some m → boxGet w.boxes m = some b →
-        (b.ready = true → t.addr ∈ w.ready) ∧ (t.addr ∉ w.ready → b.dest = some t.addr)) := by
-  have h := ((NInv.init tbl attached nw nc).exec trs hwf hdep).winv w hw
-  exact ⟨fun t0 cls hp he => assert_unreachable w h t0 hp cls he,
-    fun t ht hu m b hd hb => no_lost_wakeup w h t ht hu m b hd hb⟩
+        (b.ready = true → t.addr ∈ w.ready) ∧ (t.addr ∉ w.ready → b.dest = some t.addr))
+    ∧ (∀ src a v by_ rest,
+        chanGet ((Net.initFlat tbl attached nw nc).exec trs).chans (src, .wrk w.id) = .result a v by_ :: rest →
+        a.w = w.id →
+        (∀ bx, boxGet w.boxes a.m = some bx → bx.ready = false)
+        ∧ (w.recv (.result a v by_)).inDead = w.inDead) := by
+  have h2 := (NInv2.init tbl attached nw nc).exec trs hwf
+  have h := h2.base.winv w hw
+  refine ⟨fun t0 cls hp he => assert_unreachable w h t0 hp cls he,
+    fun t ht hu m b hd hb => no_lost_wakeup w h t ht hu m b hd hb, ?_⟩
+  intro src a v by_ rest hk haw
+  have h1 := Tok_head_worker a _ (src, .wrk w.id) _ rest hk w hw
+  simp only [tokMsg, if_true] at h1
+  have hnr : ∀ bx, boxGet w.boxes a.m = some bx → bx.ready = false :=
+    fun bx hbx => ready_false_of_lt bx (h2.not_ready w hw a haw (by omega) bx hbx)
+  exact ⟨hnr, result_lookup_ok w h a v by_ (fun _ => hnr) haw⟩
+
+/-- the assumption of the (former) partial version holds in every reachable state -/
+theorem C07_G_no_deposit_into_complete (tbl : Table) (attached : Bool) (nw nc : Nat) (trs : List Tr)
+    (hwf : ∀ t ∈ trs, t.wf) (t : Tr) : ((Net.initFlat tbl attached nw nc).exec trs).depositOK t :=
+  ((NInv2.init tbl attached nw nc).exec trs hwf).depositOK t
 
 /-- non-vacuity: a root that submits a child and awaits it on a one-worker network; the child returns
     locally, the root resumes and returns to the server - the run meets the assumption, and the
